@@ -181,6 +181,33 @@ Example C05_nonvacuous_run :
 Proof. vm_compute. split; reflexivity. Qed.
 
 
+(* the same for the other two parameter sets: cache (byte-copying child, records that send 1 / 0 / 1 lines: the
+   middle one is a repeat served from the table, cin = 2) and b64filter (child that answers only at end of
+   input, cout = 2): complete runs that end terminated with every record emitted, within the bound *)
+Definition nonvac_cache_params : wparams := tool_params cache_order cache_poison_first cache_final_peek 2 1 true None false false false.
+Example C05_nonvacuous_run_cache :
+  match run (wstep nonvac_cache_params (fun _ => 2) (fun _ => 2)) (w_init [1; 0; 1])
+    [LFeed; LCollect 1; LSend 1; LSend 1; LFeed; LFeed; LFeed; LFeed; LSend 1; LSend 1; LFeed; LFeed; LFeed; LPush 1;
+     LChildRead 1; LChildWrite 1; LCollect 1; LPush 1; LChildRead 1; LChildWrite 1; LCollect 1; LCollect 1; LCollect 1;
+     LCollect 1; LCollect 1; LCollect 1; LPush 1; LChildRead 1; LChildWrite 1; LCollect 1; LPush 1; LChildRead 1;
+     LChildWrite 1; LCollect 1; LCollect 1; LCollect 1; LFeed; LFeed; LCollect 1; LChildEof] with
+  | Some s => wterminal s = true /\ w_kpc s = KDone /\ rev (w_emitted s) = [(0, 1); (1, 0); (1, 1)]
+  | None => False
+  end /\ wmeasure nonvac_cache_params (fun _ => 2) (fun _ => 2) (w_init [1; 0; 1]) = 89.
+Proof. vm_compute. repeat split. Qed.
+
+Definition nonvac_b64_params : wparams := tool_params b64_order b64_poison_first b64_final_peek 1 2 false None false false false.
+Example C05_nonvacuous_run_b64filter :
+  match run (wstep nonvac_b64_params (fun _ => 2) (fun _ => 1)) (w_init [2; 1])
+    [LFeed; LCollect 1; LSend 1; LSend 1; LSend 1; LSend 1; LFeed; LFeed; LSend 1; LSend 1; LFeed; LFeed; LFeed;
+     LPush 1; LChildRead 1; LPush 1; LChildRead 1; LPush 1; LChildRead 1; LPush 1; LChildRead 1; LPush 1; LChildRead 1;
+     LPush 1; LChildRead 1; LFeed; LChildEof; LChildWrite 1; LCollect 1; LCollect 1; LChildWrite 1; LCollect 1; LCollect 1;
+     LCollect 1; LCollect 1; LChildWrite 1; LCollect 1; LCollect 1; LCollect 1; LCollect 1; LChildEof; LCollect 1] with
+  | Some s => wterminal s = true /\ w_kpc s = KDone /\ rev (w_emitted s) = [(0, 2); (2, 1)]
+  | None => False
+  end /\ wmeasure nonvac_b64_params (fun _ => 2) (fun _ => 1) (w_init [2; 1]) = 83.
+Proof. vm_compute. repeat split. Qed.
+
 (* non-vacuity of the termination bound: for the run above (49 steps, all premises of C05_terminates met:
    lengths 2, capacities 1, enqueue before write) the bound is a concrete number that the run respects *)
 Example C05_nonvacuous_bound :
